@@ -82,6 +82,7 @@ inductive Op where
   | set (i ty : Nat) (v : Int) | copy (i j : Nat) | swap (i j : Nat) | adopt (i ty : Nat) (v : Int)
   | clear (i : Nat) | surrender (i : Nat)
   | readopt (i : Nat)      -- `p = h[i].extract_raw(); h[i].surrender(); h[i].assimilate(p)` for a heap object: the caller hands the very same object back
+  | selfAssign (i : Nat)   -- `h[i] = value_cast<T>(h[i])`: typed assignment from the object the holder owns (copy first, then the old one goes)
 deriving Repr, DecidableEq
 
 def VS.step (s : VS) : Op → VS
@@ -92,6 +93,9 @@ def VS.step (s : VS) : Op → VS
   | .clear i => s.clear i
   | .surrender i => s.surrender i
   | .readopt _ => s          -- ownership leaves the holder and returns to it: nothing changes
+  | .selfAssign i => match s.get i with
+    | some o => s.set i o.ty o.val
+    | none => s
 
 /-! ### intrusive reference counting -/
 
